@@ -2985,9 +2985,10 @@ impl Server {
         
         let increment = match &parts[2] {
             RespFrame::BulkString(Some(bytes)) => {
-                match String::from_utf8_lossy(bytes).parse::<i64>() {
-                    Ok(n) => n,
-                    Err(_) => return Ok(RespFrame::error("ERR value is not an integer or out of range")),
+                // the canonical decimal form only, as for the stored value
+                match crate::storage::value::parse_canonical_i64(bytes) {
+                    Some(n) => n,
+                    None => return Ok(RespFrame::error("ERR value is not an integer or out of range")),
                 }
             }
             _ => return Ok(RespFrame::error("ERR invalid increment format")),
@@ -3298,9 +3299,10 @@ impl Server {
         
         let decrement = match &parts[2] {
             RespFrame::BulkString(Some(bytes)) => {
-                match String::from_utf8_lossy(bytes).parse::<i64>() {
-                    Ok(n) => n,
-                    Err(_) => return Ok(RespFrame::error("ERR value is not an integer or out of range")),
+                // the canonical decimal form only, as for the stored value
+                match crate::storage::value::parse_canonical_i64(bytes) {
+                    Some(n) => n,
+                    None => return Ok(RespFrame::error("ERR value is not an integer or out of range")),
                 }
             }
             _ => return Ok(RespFrame::error("ERR invalid decrement format")),
